@@ -145,6 +145,8 @@ def money(draw, lo, hi):
 def fmt_money(draw, x, style):
     if x == int(x) and draw(st.integers(0, 2)) == 0:
         s = str(int(x))
+    elif x > 0 and draw(st.integers(0, 11)) == 0:
+        s = f'{x:.2f}' + draw(st.sampled_from(['4', '49', '1']))     # valid float text with sub-cent digits
     else:
         s = f'{x:.2f}'
     if style == 'spaced':
@@ -516,7 +518,7 @@ class Policy(object):
         if base == 'box_20':
             return ''
         return d(st.sampled_from(['Jane', 'Doe', 'Public', 'Acme Corp', '12 Main St', 'engineer', 'Child One',
-                                  'son', 'Mary Ann', "O'Neil", 'First Bank', 'x']))
+                                  'son', 'Mary Ann', "O'Neil", 'First Bank', 'x', 'Unit #12', '5 Elm St ;rear', '#7']))
 
 
 # ---------------------------------------------------------------------------
